@@ -634,18 +634,21 @@ def _isotope_substitution(compound, source, target, portion=1):
     *portion* is the proportion of source which is substituted for target.
     """
     atoms = compound.atoms
+    density = compound.density
     if source in atoms:
-        mass = compound.mass
-        mass_reduction = atoms[source]*portion*(source.mass - target.mass)
-        density = compound.density * (mass - mass_reduction)/mass
+        if density is not None:
+            mass = compound.mass
+            mass_reduction = atoms[source]*portion*(source.mass - target.mass)
+            density = density * (mass - mass_reduction)/mass
         atoms[target] = atoms.get(target, 0) + atoms[source]*portion
         if portion == 1:
             del atoms[source]
         else:
             atoms[source] *= 1-portion
-    else:
-        density = compound.density
-    return formula(atoms, density=density)
+    result = formula(atoms)
+    # Cell volume is preserved, so an unknown density stays unknown.
+    result.density = density
+    return result
 
 
 LENGTH_UNITS = {'nm': 1e-9, 'um': 1e-6, 'mm': 1e-3, 'cm': 1e-2}
